@@ -50,6 +50,16 @@ PROPERTY_CLASSES = {
 }
 
 
+
+def vcheck_lock():
+    """one process-wide lock for the counters of the check object (the three tree-level ties run side by side)"""
+    import threading
+    import builtins
+    if not hasattr(builtins, "_c10_lock"):
+        builtins._c10_lock = threading.Lock()
+    return builtins._c10_lock
+
+
 def pack(hexs):
     b = bytes.fromhex(hexs)
     out = [str(len(b))]
@@ -232,9 +242,14 @@ def run_correspondence(ck, known):
     panics = sorted(set(r["site"] for tag, path in runs for r in load(path)[2] if str(r.get("rej", "")).startswith("panic")))
     ck.obligation("every one of the %d positions has evaluated statements (no position is rejected throughout), and no request dies outside the code's own error handling"
                   % len(allsites), not dead and not panics, "no evaluated case at: %s; panic at: %s" % (dead, panics))
-    run_tree_tie(ck, list(by_id.values()), "gen+corpus")
-    c10tq.run(ck, tq_pairs, "gen+corpus", describe)
-    c10sel.run(ck, list(by_id.values()), "gen+corpus")
+    # the three tree-level ties are independent (own harness runs, own OCaml extraction directories): side by side
+    from concurrent.futures import ThreadPoolExecutor
+    allc = list(by_id.values())
+    with ThreadPoolExecutor(max_workers=3) as ex:
+        futs = [ex.submit(run_tree_tie, ck, allc, "gen+corpus"), ex.submit(c10tq.run, ck, tq_pairs, "gen+corpus", describe),
+                ex.submit(c10sel.run, ck, allc, "gen+corpus")]
+        for fu in futs:
+            fu.result()
 
     # 8 = the statement for the HARMLESS marker does not lex: a concrete failing request as well (the case's site with the marker)
     mism = sorted(i for i, v in verd_all.items() if v in (7, 10))
@@ -254,7 +269,8 @@ def run_correspondence(ck, known):
         worst = min((by_id[i] for i in mism), key=lambda c: len(c["val"]))
         ck.violation({"property": "C10", "kind": CODE[verd_all[worst["id"]]], "case": describe(worst),
                       "broken": "correspondence model/Quote.v + model/Like.v vs implementation"}, no_input=True)
-    ck.coverage["evaluations"] += total
+    with vcheck_lock():
+        ck.coverage["evaluations"] += total
     ck.coverage["distinct_nontrivial"] += len(distinct)
     ck.coverage["rule"] += ("hostile byte strings (dictionary atoms: quotes, backslashes, NUL/control bytes, comment markers, "
                             "LIKE wildcards, multi-byte and invalid UTF-8, SQL fragments; random bytes) placed in one string position of "
@@ -485,7 +501,8 @@ def run_tree_tie(ck, sq_cases, tag):
               "stage_not_transcribed_in_LogqlPlan_v": unmodelled,
               "pairs_compared_piecewise_with_the_markers_text": ncmp, "pairs_whose_parsed_requests_are_variants_(script_variantb)": sum(1 for v in variant.values() if v), "pairs_not_variants": len(notvar),
               "per_site_[requests,value_located_in_a_value_piece,compared_with_marker]": by_site}
-    ck.coverage["evaluations"] += nstmt
+    with vcheck_lock():
+        ck.coverage["evaluations"] += nstmt
 
 def run_sites(ck):
     """translator-generated obligations, with named diagnostics before the theorems are compiled"""
@@ -698,7 +715,8 @@ def run_replay(ck):
         if verd is None:
             ck.obligation("replay evaluated inside Coq", False, out[-1500:])
             return
-    ck.coverage["evaluations"] += len(cases)
+    with vcheck_lock():
+        ck.coverage["evaluations"] += len(cases)
     run_tree_tie(ck, cases, "replay")
     tq_pairs = [(cs, bases[cs["base"]]) for cs in cases if cs.get("tq") and 0 <= cs["base"] < len(bases) and bases[cs["base"]].get("tq")]
     if tq_pairs:
